@@ -72,7 +72,9 @@ class JsonSerializer(BaseSerializer):
             Any: The serialized value. A dict, list, string, number, or boolean.
         """
         # This has something to do with BaseComponent from llama_index.core. Is it still needed?
-        if hasattr(value, "class_name"):
+        # Look on the type: an Event / DictState answers hasattr() for the name of
+        # any of its dynamic fields, e.g. Event(class_name="Foo").
+        if hasattr(type(value), "class_name"):
             retval = {
                 "__is_component": True,
                 "value": value.to_dict(),
